@@ -78,107 +78,131 @@ theorem isEqualPairs_iff_data {P : α → Prop} {o : LeafOps α}
         isEqualPairs_iff_data he r s ha.2.2 hb.2.2, and_assoc]
 end
 
-/-- the leaf facts the copy theorems need: `pkg.<T>Equal` is exact on `P`, zero values satisfy `P` -/
-structure LeafCopy (P : α → Prop) (o : LeafOps α) : Prop where
-  eq_iff : ∀ a b, P a → P b → (o.eq a b = true ↔ a = b)
-  zero_ok : ∀ a, P a → P (o.zero a)
+/-- pkg.<T>Equal is exact: what every generated setter (`if !Equal(dst, v) { dst = v }`) needs -/
+structure LeafEq (o : LeafOps α) : Prop where
+  eq_iff : ∀ a b, o.eq a b = true ↔ a = b
 
-theorem LeafCopy.set_eq {P : α → Prop} {o : LeafOps α} (h : LeafCopy P o) {d s : α} (hd : P d) (hs : P s) :
-    o.set d s = s := by
+theorem LeafEq.set_eq {o : LeafOps α} (h : LeafEq o) {d s : α} : o.set d s = s := by
   unfold LeafOps.set
   by_cases e : o.eq d s = true
-  · simp [(h.eq_iff d s hd hs).mp e]
+  · simp [(h.eq_iff d s).mp e]
   · simp [e]
 
+/-- Go's `==` implies identity on the primitives satisfying `Q`, and zero values satisfy `Q`: what
+    the primitive key/value branch of copy<Multimap> (`if dst != src`) needs -/
+structure LeafSame (Q : α → Prop) (o : LeafOps α) : Prop where
+  same_imp : ∀ a b, Q a → Q b → o.same a b = true → a = b
+  zero_ok : ∀ a, Q a → Q (o.zero a)
+
 mutual
-theorem zero_all {P : α → Prop} {o : LeafOps α} (h : LeafCopy P o) :
-    ∀ v : Value α, v.All P → (zero o v).All P := by
-  intro v hv
+theorem zero_mapPrims (Q : α → Prop) (o : LeafOps α) : ∀ v : Value α, (zero o v).MapPrims Q := by
+  intro v
   cases v with
-  | leaf a => exact h.zero_ok a hv
-  | struct fs => exact zeroFields_all h fs hv
-  | _ => simp [zero, Value.All, Values.All, Pairs.All]
-theorem zeroFields_all {P : α → Prop} {o : LeafOps α} (h : LeafCopy P o) :
-    ∀ v : Fields α, v.All P → (zeroFields o v).All P := by
-  intro v hv
+  | struct fs => exact zeroFields_mapPrims Q o fs
+  | _ => simp [zero, Value.MapPrims, Values.MapPrims, Pairs.MapPrims]
+theorem zeroFields_mapPrims (Q : α → Prop) (o : LeafOps α) :
+    ∀ v : Fields α, (zeroFields o v).MapPrims Q := by
+  intro v
   cases v with
-  | nil => simp [zeroFields, Fields.All]
-  | cons p v r => exact ⟨zero_all h v hv.1, zeroFields_all h r hv.2⟩
+  | nil => simp [zeroFields, Fields.MapPrims]
+  | cons p v r => exact ⟨zero_mapPrims Q o v, zeroFields_mapPrims Q o r⟩
 end
 
 mutual
-theorem data_copyNew {P : α → Prop} {o : LeafOps α} (h : LeafCopy P o) :
-    ∀ v : Value α, v.All P → data (copyNew o v) = data v := by
-  intro v hv
+theorem data_copyNew {o : LeafOps α} (h : LeafEq o) :
+    ∀ v : Value α, data (copyNew o v) = data v := by
+  intro v
   cases v with
   | leaf a => simp [copyNew]
   | null => simp [copyNew]
-  | struct fs => simp only [copyNew, data]; rw [data_copyNewFields h fs hv]
+  | struct fs => simp only [copyNew, data]; rw [data_copyNewFields h fs]
   | none => simp [copyNew]
   | choice k w => cases w with
-    | leaf a => simp only [copyNew, data]; rw [h.set_eq (h.zero_ok a hv) hv]
+    | leaf a => simp only [copyNew, data]; rw [h.set_eq]
     | null => simp [copyNew]
-    | struct fs => simp only [copyNew, data]; rw [data_copyNewFields h fs hv]
+    | struct fs => simp only [copyNew, data]; rw [data_copyNewFields h fs]
     | none => simp [copyNew]
     | choice j u =>
-      have := data_copyNew h (.choice j u) hv
+      have := data_copyNew h (.choice j u)
       simp only [copyNew] at this ⊢
       simp only [data] at this ⊢
       rw [this]
-    | arr es => simp only [copyNew, data]; rw [data_copyNewValues h es hv]
-    | mmap ps => simp only [copyNew, data]; rw [data_copyNewPairs h ps hv]
-  | arr es => simp only [copyNew, data]; rw [data_copyNewValues h es hv]
-  | mmap ps => simp only [copyNew, data]; rw [data_copyNewPairs h ps hv]
-theorem data_copyNewFields {P : α → Prop} {o : LeafOps α} (h : LeafCopy P o) :
-    ∀ v : Fields α, v.All P → dataFields (copyNewFields o v) = dataFields v := by
-  intro v hv
+    | arr es => simp only [copyNew, data]; rw [data_copyNewValues h es]
+    | mmap ps => simp only [copyNew, data]; rw [data_copyNewPairs h ps]
+  | arr es => simp only [copyNew, data]; rw [data_copyNewValues h es]
+  | mmap ps => simp only [copyNew, data]; rw [data_copyNewPairs h ps]
+theorem data_copyNewFields {o : LeafOps α} (h : LeafEq o) :
+    ∀ v : Fields α, dataFields (copyNewFields o v) = dataFields v := by
+  intro v
   cases v with
   | nil => simp [copyNewFields]
   | cons p w r =>
-    have ir := data_copyNewFields h r hv.2
+    have ir := data_copyNewFields h r
     cases w with
     | leaf a =>
       cases p
       · simp [copyNewFields, dataFields, ir]
       · simp [copyNewFields, dataFields, ir]
       · simp only [copyNewFields, dataFields, data, ir]
-        rw [h.set_eq (h.zero_ok a hv.1) hv.1]
+        rw [h.set_eq]
     | _ =>
-      have iw := data_copyNew h _ hv.1
-      cases p <;> simp [copyNewFields, dataFields, ir, iw]
-theorem data_copyNewValues {P : α → Prop} {o : LeafOps α} (h : LeafCopy P o) :
-    ∀ v : Values α, v.All P → dataValues (copyNewValues o v) = dataValues v := by
-  intro v hv
+      cases p <;> simp [copyNewFields, dataFields, ir, data_copyNew h]
+theorem data_copyNewValues {o : LeafOps α} (h : LeafEq o) :
+    ∀ v : Values α, dataValues (copyNewValues o v) = dataValues v := by
+  intro v
   cases v with
   | nil => simp [copyNewValues]
   | cons w r =>
     simp only [copyNewValues, dataValues]
-    rw [data_copyNew h w hv.1, data_copyNewValues h r hv.2]
-theorem data_copyNewPairs {P : α → Prop} {o : LeafOps α} (h : LeafCopy P o) :
-    ∀ v : Pairs α, v.All P → dataPairs (copyNewPairs o v) = dataPairs v := by
-  intro v hv
+    rw [data_copyNew h w, data_copyNewValues h r]
+theorem data_copyNewPairs {o : LeafOps α} (h : LeafEq o) :
+    ∀ v : Pairs α, dataPairs (copyNewPairs o v) = dataPairs v := by
+  intro v
   cases v with
   | nil => simp [copyNewPairs]
   | cons k w r =>
     simp only [copyNewPairs, dataPairs]
-    rw [data_copyNew h k hv.1, data_copyNew h w hv.2.1, data_copyNewPairs h r hv.2.2]
+    rw [data_copyNew h k, data_copyNew h w, data_copyNewPairs h r]
 end
 
 theorem data_choice (j : BitVec 8) {x y : Value α} (h : data x = data y) :
     data (.choice j x) = data (.choice j y) := by simp [data, h]
 
+theorem isEqual_data {o : LeafOps α} (h : LeafEq o) {x y : Value α} (e : isEqual o x y = true) :
+    data x = data y :=
+  (isEqual_iff_data (P := fun _ => True) (fun a b _ _ => h.eq_iff a b) x y (all_true x) (all_true y)).mp e
+
+/-- when copy<Multimap> keeps the destination's key/value, it holds the source's data -/
+theorem keepElem_data {Q : α → Prop} {o : LeafOps α} (h : LeafEq o) (hq : LeafSame Q o)
+    {x y : Value α} (hx : ∀ a, x = .leaf a → Q a) (hy : ∀ a, y = .leaf a → Q a)
+    (e : keepElem o x y = true) : data x = data y := by
+  cases x with
+  | leaf a => cases y with
+    | leaf b =>
+      simp only [keepElem] at e
+      rw [hq.same_imp a b (hx a rfl) (hy b rfl) e]
+    | _ => exact isEqual_data h (by simpa [keepElem] using e)
+  | _ => exact isEqual_data h (by simpa [keepElem] using e)
+
+theorem zero_leafQ {Q : α → Prop} {o : LeafOps α} (hq : LeafSame Q o) {y : Value α}
+    (hy : ∀ a, y = .leaf a → Q a) : ∀ a, zero o y = .leaf a → Q a := by
+  intro a e
+  cases y <;> simp [zero] at e
+  subst e
+  exact hq.zero_ok _ (hy _ rfl)
+
 mutual
-theorem data_copyFrom {P : α → Prop} {o : LeafOps α} (h : LeafCopy P o) :
-    ∀ s d : Value α, s.All P → d.All P → data (copyFrom o d s) = data s := by
+theorem data_copyFrom {Q : α → Prop} {o : LeafOps α} (h : LeafEq o) (hq : LeafSame Q o) :
+    ∀ s d : Value α, s.MapPrims Q → d.MapPrims Q → data (copyFrom o d s) = data s := by
   intro s d hs hd
   cases s with
   | leaf x => cases d with
-    | leaf y => simp only [copyFrom, data]; rw [h.set_eq hd hs]
+    | leaf y => simp only [copyFrom, data]; rw [h.set_eq]
     | _ => simp [copyFrom, copyNew]
   | null => cases d <;> simp [copyFrom, copyNew]
   | struct ss => cases d with
-    | struct ds => simp only [copyFrom, data]; rw [data_copyFromFields h ss ds hs hd]
-    | _ => simp only [copyFrom]; exact data_copyNew h _ hs
+    | struct ds => simp only [copyFrom, data]; rw [data_copyFromFields h hq ss ds hs hd]
+    | _ => simp only [copyFrom]; exact data_copyNew h _
   | none => cases d <;> simp [copyFrom]
   | choice j w => cases w with
     | leaf x => cases d with
@@ -186,16 +210,16 @@ theorem data_copyFrom {P : α → Prop} {o : LeafOps α} (h : LeafCopy P o) :
         | leaf y =>
           simp only [copyFrom, data]
           by_cases e : k = j
-          · simp only [e, if_true]; rw [h.set_eq hd hs]
+          · simp only [e, if_true]; rw [h.set_eq]
           · simp only [e, if_false]
         | _ => simp [copyFrom]
       | _ => simp [copyFrom]
     | null => cases d <;> simp [copyFrom, copyNew, zero]
     | struct ss =>
-      have i0 := data_copyFrom h (.struct ss) (zero o (.struct ss)) hs (zero_all h _ hs)
+      have i0 := data_copyFrom h hq (.struct ss) (zero o (.struct ss)) hs (zero_mapPrims Q o _)
       cases d with
       | choice k dd =>
-        have i1 := data_copyFrom h (.struct ss) dd hs hd
+        have i1 := data_copyFrom h hq (.struct ss) dd hs hd
         simp only [copyFrom]
         by_cases e : k = j <;> simp only [e, if_true, if_false] <;> apply data_choice <;> assumption
       | _ => simp only [copyFrom]; exact data_choice _ i0
@@ -203,49 +227,50 @@ theorem data_copyFrom {P : α → Prop} {o : LeafOps α} (h : LeafCopy P o) :
       | choice k dd => simp [copyFrom]
       | _ => simp [copyFrom]
     | choice i u =>
-      have i0 := data_copyFrom h (.choice i u) (zero o (.choice i u)) hs (zero_all h _ hs)
+      have i0 := data_copyFrom h hq (.choice i u) (zero o (.choice i u)) hs (zero_mapPrims Q o _)
       cases d with
       | choice k dd =>
-        have i1 := data_copyFrom h (.choice i u) dd hs hd
+        have i1 := data_copyFrom h hq (.choice i u) dd hs hd
         simp only [copyFrom]
         by_cases e : k = j <;> simp only [e, if_true, if_false] <;> apply data_choice <;> assumption
       | _ => simp only [copyFrom]; exact data_choice _ i0
     | arr es =>
-      have i0 := data_copyFrom h (.arr es) (zero o (.arr es)) hs (zero_all h _ hs)
+      have i0 := data_copyFrom h hq (.arr es) (zero o (.arr es)) hs (zero_mapPrims Q o _)
       cases d with
       | choice k dd =>
-        have i1 := data_copyFrom h (.arr es) dd hs hd
+        have i1 := data_copyFrom h hq (.arr es) dd hs hd
         simp only [copyFrom]
         by_cases e : k = j <;> simp only [e, if_true, if_false] <;> apply data_choice <;> assumption
       | _ => simp only [copyFrom]; exact data_choice _ i0
     | mmap ps =>
-      have i0 := data_copyFrom h (.mmap ps) (zero o (.mmap ps)) hs (zero_all h _ hs)
+      have i0 := data_copyFrom h hq (.mmap ps) (zero o (.mmap ps)) hs (zero_mapPrims Q o _)
       cases d with
       | choice k dd =>
-        have i1 := data_copyFrom h (.mmap ps) dd hs hd
+        have i1 := data_copyFrom h hq (.mmap ps) dd hs hd
         simp only [copyFrom]
         by_cases e : k = j <;> simp only [e, if_true, if_false] <;> apply data_choice <;> assumption
       | _ => simp only [copyFrom]; exact data_choice _ i0
   | arr ss => cases d with
-    | arr ds => simp only [copyFrom, data]; rw [data_copyFromValues h ss ds hs hd]
-    | _ => simp only [copyFrom]; exact data_copyNew h _ hs
+    | arr ds => simp only [copyFrom, data]; rw [data_copyFromValues h hq ss ds hs hd]
+    | _ => simp only [copyFrom]; exact data_copyNew h _
   | mmap ss => cases d with
-    | mmap ds => simp only [copyFrom, data]; rw [data_copyFromPairs h ss ds hs hd]
-    | _ => simp only [copyFrom]; exact data_copyNew h _ hs
-theorem data_copyFromFields {P : α → Prop} {o : LeafOps α} (h : LeafCopy P o) :
-    ∀ s d : Fields α, s.All P → d.All P → dataFields (copyFromFields o d s) = dataFields s := by
+    | mmap ds => simp only [copyFrom, data]; rw [data_copyFromPairs h hq ss ds hs hd]
+    | _ => simp only [copyFrom]; exact data_copyNew h _
+theorem data_copyFromFields {Q : α → Prop} {o : LeafOps α} (h : LeafEq o) (hq : LeafSame Q o) :
+    ∀ s d : Fields α, s.MapPrims Q → d.MapPrims Q →
+      dataFields (copyFromFields o d s) = dataFields s := by
   intro s d hs hd
   cases s with
   | nil => cases d <;> simp [copyFromFields]
   | cons sp sv sr =>
     cases d with
     | nil =>
-      have ir := data_copyFromFields h sr .nil hs.2 trivial
-      have iv := data_copyNew h sv hs.1
+      have ir := data_copyFromFields h hq sr .nil hs.2 trivial
+      have iv := data_copyNew h sv
       cases sp <;> simp [copyFromFields, dataFields, ir, iv]
     | cons dp dv dr =>
-      have ir := data_copyFromFields h sr dr hs.2 hd.2
-      have iv := data_copyFrom h sv dv hs.1 hd.1
+      have ir := data_copyFromFields h hq sr dr hs.2 hd.2
+      have iv := data_copyFrom h hq sv dv hs.1 hd.1
       cases sp with
       | absent =>
         cases sv <;> cases dv <;> cases dp <;> simp [copyFromFields, dataFields, ir]
@@ -255,13 +280,14 @@ theorem data_copyFromFields {P : α → Prop} {o : LeafOps α} (h : LeafCopy P o
           | leaf y =>
             simp only [copyFromFields, dataFields, data, ir]
             by_cases e : dp = .present
-            · simp only [e, if_true]; rw [h.set_eq hd.1 hs.1]
+            · simp only [e, if_true]; rw [h.set_eq]
             · simp only [e, if_false]
           | _ => simp only [copyFromFields, dataFields, ir, iv]
         | _ => simp only [copyFromFields, dataFields, ir, iv]
       | req => simp only [copyFromFields, dataFields, ir, iv]
-theorem data_copyFromValues {P : α → Prop} {o : LeafOps α} (h : LeafCopy P o) :
-    ∀ s d : Values α, s.All P → d.All P → dataValues (copyFromValues o d s) = dataValues s := by
+theorem data_copyFromValues {Q : α → Prop} {o : LeafOps α} (h : LeafEq o) (hq : LeafSame Q o) :
+    ∀ s d : Values α, s.MapPrims Q → d.MapPrims Q →
+      dataValues (copyFromValues o d s) = dataValues s := by
   intro s d hs hd
   cases s with
   | nil => cases d <;> simp [copyFromValues]
@@ -269,34 +295,38 @@ theorem data_copyFromValues {P : α → Prop} {o : LeafOps α} (h : LeafCopy P o
     cases d with
     | nil =>
       simp only [copyFromValues, dataValues]
-      rw [data_copyFromValues h sr .nil hs.2 trivial, data_copyFrom h sv _ hs.1 (zero_all h _ hs.1)]
+      rw [data_copyFromValues h hq sr .nil hs.2 trivial,
+        data_copyFrom h hq sv _ hs.1 (zero_mapPrims Q o _)]
     | cons dv dr =>
       simp only [copyFromValues, dataValues]
-      rw [data_copyFromValues h sr dr hs.2 hd.2, data_copyFrom h sv dv hs.1 hd.1]
-theorem data_copyFromPairs {P : α → Prop} {o : LeafOps α} (h : LeafCopy P o) :
-    ∀ s d : Pairs α, s.All P → d.All P → dataPairs (copyFromPairs o d s) = dataPairs s := by
+      rw [data_copyFromValues h hq sr dr hs.2 hd.2, data_copyFrom h hq sv dv hs.1 hd.1]
+theorem data_copyFromPairs {Q : α → Prop} {o : LeafOps α} (h : LeafEq o) (hq : LeafSame Q o) :
+    ∀ s d : Pairs α, s.MapPrims Q → d.MapPrims Q →
+      dataPairs (copyFromPairs o d s) = dataPairs s := by
   intro s d hs hd
   cases s with
   | nil => cases d <;> simp [copyFromPairs]
   | cons sk sv sr =>
-    have guarded : ∀ (x y : Value α), y.All P → x.All P →
+    have guarded : ∀ (x y : Value α), (∀ a, x = .leaf a → Q a) → (∀ a, y = .leaf a → Q a) →
         data (copyFrom o x y) = data y →
-        data (if isEqual o x y = true then x else copyFrom o x y) = data y := by
-      intro x y hy hx ih
-      by_cases e : isEqual o x y = true
-      · simp only [e, if_true]; exact (isEqual_iff_data h.eq_iff x y hx hy).mp e
+        data (if keepElem o x y = true then x else copyFrom o x y) = data y := by
+      intro x y hx hy ih
+      by_cases e : keepElem o x y = true
+      · simp only [e, if_true]; exact keepElem_data h hq hx hy e
       · simp only [e]; exact ih
+    obtain ⟨⟨hsk, hsv, hsr⟩, qsk, qsv⟩ := hs
     cases d with
     | nil =>
       simp only [copyFromPairs, dataPairs]
-      rw [data_copyFromPairs h sr .nil hs.2.2 trivial,
-        guarded _ sk hs.1 (zero_all h _ hs.1) (data_copyFrom h sk _ hs.1 (zero_all h _ hs.1)),
-        guarded _ sv hs.2.1 (zero_all h _ hs.2.1) (data_copyFrom h sv _ hs.2.1 (zero_all h _ hs.2.1))]
+      rw [data_copyFromPairs h hq sr .nil hsr trivial,
+        guarded _ sk (zero_leafQ hq qsk) qsk (data_copyFrom h hq sk _ hsk (zero_mapPrims Q o _)),
+        guarded _ sv (zero_leafQ hq qsv) qsv (data_copyFrom h hq sv _ hsv (zero_mapPrims Q o _))]
     | cons dk dv dr =>
+      obtain ⟨⟨hdk, hdv, hdr⟩, qdk, qdv⟩ := hd
       simp only [copyFromPairs, dataPairs]
-      rw [data_copyFromPairs h sr dr hs.2.2 hd.2.2,
-        guarded dk sk hs.1 hd.1 (data_copyFrom h sk dk hs.1 hd.1),
-        guarded dv sv hs.2.1 hd.2.1 (data_copyFrom h sv dv hs.2.1 hd.2.1)]
+      rw [data_copyFromPairs h hq sr dr hsr hdr,
+        guarded dk sk qdk qsk (data_copyFrom h hq sk dk hsk hdk),
+        guarded dv sv qdv qsv (data_copyFrom h hq sv dv hsv hdv)]
 end
 
 /-! ### same data -> IsEqual, needing the leaf law on one side only -/
@@ -366,28 +396,28 @@ def Value.TopReq : Value α → Prop
   | .struct fs => fs.AllReq
   | _ => True
 
-theorem data_cloneFields {P : α → Prop} {o : LeafOps α} (h : LeafCopy P o) :
-    ∀ fs : Fields α, fs.All P → fs.AllReq → dataFields (cloneFields o fs) = dataFields fs := by
-  intro fs hv hq
+theorem data_cloneFields {o : LeafOps α} (h : LeafEq o) :
+    ∀ fs : Fields α, fs.AllReq → dataFields (cloneFields o fs) = dataFields fs := by
+  intro fs hq
   cases fs with
   | nil => simp [cloneFields]
   | cons p w r =>
     obtain ⟨hp, hq⟩ := hq
     subst hp
-    have ir := data_cloneFields h r hv.2 hq
+    have ir := data_cloneFields h r hq
     cases w with
     | leaf a => simp [cloneFields, dataFields, ir]
-    | _ => simp only [cloneFields, dataFields, ir]; rw [data_copyNew h _ hv.1]
+    | _ => simp only [cloneFields, dataFields, ir]; rw [data_copyNew h _]
 
-theorem data_clone {P : α → Prop} {o : LeafOps α} (h : LeafCopy P o) :
-    ∀ v : Value α, v.All P → v.TopReq → data (clone o v) = data v := by
-  intro v hv hq
+theorem data_clone {o : LeafOps α} (h : LeafEq o) :
+    ∀ v : Value α, v.TopReq → data (clone o v) = data v := by
+  intro v hq
   cases v with
-  | struct fs => simp only [clone, data]; rw [data_cloneFields h fs hv hq]
+  | struct fs => simp only [clone, data]; rw [data_cloneFields h fs hq]
   | choice k w => cases w with
     | leaf a => simp [clone]
-    | _ => simp only [clone]; exact data_copyNew h _ hv
-  | _ => simp only [clone]; exact data_copyNew h _ hv
+    | _ => simp only [clone]; exact data_copyNew h _
+  | _ => simp only [clone]; exact data_copyNew h _
 
 /-! ### Cmp of a copy: equal STATE is needed, so absent optional primitives must hold their zero value -/
 
@@ -413,30 +443,30 @@ def Pairs.Clean (o : LeafOps α) : Pairs α → Prop
 end
 
 mutual
-theorem copyNew_clean {P : α → Prop} {o : LeafOps α} (h : LeafCopy P o) :
-    ∀ v : Value α, v.All P → v.Clean o → copyNew o v = v := by
-  intro v hv hc
+theorem copyNew_clean {o : LeafOps α} (h : LeafEq o) :
+    ∀ v : Value α, v.Clean o → copyNew o v = v := by
+  intro v hc
   cases v with
   | leaf a => simp [copyNew]
   | null => simp [copyNew]
-  | struct fs => simp only [copyNew]; rw [copyNewFields_clean h fs hv hc]
+  | struct fs => simp only [copyNew]; rw [copyNewFields_clean h fs hc]
   | none => simp [copyNew]
   | choice k w => cases w with
-    | leaf a => simp only [copyNew]; rw [h.set_eq (h.zero_ok a hv) hv]
+    | leaf a => simp only [copyNew]; rw [h.set_eq]
     | null => simp [copyNew]
-    | struct fs => simp only [copyNew]; rw [copyNewFields_clean h fs hv hc]
+    | struct fs => simp only [copyNew]; rw [copyNewFields_clean h fs hc]
     | none => simp [copyNew]
     | choice j u =>
-      have := copyNew_clean h (.choice j u) hv hc
+      have := copyNew_clean h (.choice j u) hc
       simp only [copyNew] at this ⊢
       rw [this]
-    | arr es => simp only [copyNew]; rw [copyNewValues_clean h es hv hc]
-    | mmap ps => simp only [copyNew]; rw [copyNewPairs_clean h ps hv hc]
-  | arr es => simp only [copyNew]; rw [copyNewValues_clean h es hv hc]
-  | mmap ps => simp only [copyNew]; rw [copyNewPairs_clean h ps hv hc]
-theorem copyNewFields_clean {P : α → Prop} {o : LeafOps α} (h : LeafCopy P o) :
-    ∀ v : Fields α, v.All P → v.Clean o → copyNewFields o v = v := by
-  intro v hv hc
+    | arr es => simp only [copyNew]; rw [copyNewValues_clean h es hc]
+    | mmap ps => simp only [copyNew]; rw [copyNewPairs_clean h ps hc]
+  | arr es => simp only [copyNew]; rw [copyNewValues_clean h es hc]
+  | mmap ps => simp only [copyNew]; rw [copyNewPairs_clean h ps hc]
+theorem copyNewFields_clean {o : LeafOps α} (h : LeafEq o) :
+    ∀ v : Fields α, v.Clean o → copyNewFields o v = v := by
+  intro v hc
   cases v with
   | nil => simp [copyNewFields]
   | cons p w r =>
@@ -444,36 +474,36 @@ theorem copyNewFields_clean {P : α → Prop} {o : LeafOps α} (h : LeafCopy P o
     | leaf a =>
       cases p
       · simp only [Fields.Clean] at hc
-        simp only [copyNewFields]; rw [copyNewFields_clean h r hv.2 hc.2, ← hc.1]
+        simp only [copyNewFields]; rw [copyNewFields_clean h r hc.2, ← hc.1]
       · simp only [Fields.Clean] at hc
-        simp only [copyNewFields]; rw [copyNewFields_clean h r hv.2 hc.2]
+        simp only [copyNewFields]; rw [copyNewFields_clean h r hc.2]
       · simp only [Fields.Clean] at hc
         simp only [copyNewFields]
-        rw [copyNewFields_clean h r hv.2 hc.2, h.set_eq (h.zero_ok a hv.1) hv.1]
+        rw [copyNewFields_clean h r hc.2, h.set_eq]
     | _ =>
       cases p <;> simp only [Fields.Clean] at hc <;> simp only [copyNewFields] <;>
-        rw [copyNewFields_clean h r hv.2 hc.2, copyNew_clean h _ hv.1 hc.1]
-theorem copyNewValues_clean {P : α → Prop} {o : LeafOps α} (h : LeafCopy P o) :
-    ∀ v : Values α, v.All P → v.Clean o → copyNewValues o v = v := by
-  intro v hv hc
+        rw [copyNewFields_clean h r hc.2, copyNew_clean h _ hc.1]
+theorem copyNewValues_clean {o : LeafOps α} (h : LeafEq o) :
+    ∀ v : Values α, v.Clean o → copyNewValues o v = v := by
+  intro v hc
   cases v with
   | nil => simp [copyNewValues]
   | cons w r =>
     simp only [copyNewValues]
-    rw [copyNew_clean h w hv.1 hc.1, copyNewValues_clean h r hv.2 hc.2]
-theorem copyNewPairs_clean {P : α → Prop} {o : LeafOps α} (h : LeafCopy P o) :
-    ∀ v : Pairs α, v.All P → v.Clean o → copyNewPairs o v = v := by
-  intro v hv hc
+    rw [copyNew_clean h w hc.1, copyNewValues_clean h r hc.2]
+theorem copyNewPairs_clean {o : LeafOps α} (h : LeafEq o) :
+    ∀ v : Pairs α, v.Clean o → copyNewPairs o v = v := by
+  intro v hc
   cases v with
   | nil => simp [copyNewPairs]
   | cons k w r =>
     simp only [copyNewPairs]
-    rw [copyNew_clean h k hv.1 hc.1, copyNew_clean h w hv.2.1 hc.2.1, copyNewPairs_clean h r hv.2.2 hc.2.2]
+    rw [copyNew_clean h k hc.1, copyNew_clean h w hc.2.1, copyNewPairs_clean h r hc.2.2]
 end
 
-theorem cloneFields_clean {P : α → Prop} {o : LeafOps α} (h : LeafCopy P o) :
-    ∀ fs : Fields α, fs.All P → fs.AllReq → fs.Clean o → cloneFields o fs = fs := by
-  intro fs hv hq hc
+theorem cloneFields_clean {o : LeafOps α} (h : LeafEq o) :
+    ∀ fs : Fields α, fs.AllReq → fs.Clean o → cloneFields o fs = fs := by
+  intro fs hq hc
   cases fs with
   | nil => simp [cloneFields]
   | cons p w r =>
@@ -482,36 +512,39 @@ theorem cloneFields_clean {P : α → Prop} {o : LeafOps α} (h : LeafCopy P o) 
     cases w with
     | leaf a =>
       simp only [Fields.Clean] at hc
-      simp only [cloneFields]; rw [cloneFields_clean h r hv.2 hq hc.2]
+      simp only [cloneFields]; rw [cloneFields_clean h r hq hc.2]
     | _ =>
       simp only [Fields.Clean] at hc
-      simp only [cloneFields]; rw [cloneFields_clean h r hv.2 hq hc.2, copyNew_clean h _ hv.1 hc.1]
+      simp only [cloneFields]; rw [cloneFields_clean h r hq hc.2, copyNew_clean h _ hc.1]
 
-theorem clone_clean {P : α → Prop} {o : LeafOps α} (h : LeafCopy P o) :
-    ∀ v : Value α, v.All P → v.TopReq → v.Clean o → clone o v = v := by
-  intro v hv hq hc
+theorem clone_clean {o : LeafOps α} (h : LeafEq o) :
+    ∀ v : Value α, v.TopReq → v.Clean o → clone o v = v := by
+  intro v hq hc
   cases v with
-  | struct fs => simp only [clone]; rw [cloneFields_clean h fs hv hq hc]
+  | struct fs => simp only [clone]; rw [cloneFields_clean h fs hq hc]
   | choice k w => cases w with
     | leaf a => simp [clone]
-    | _ => simp only [clone]; exact copyNew_clean h _ hv hc
-  | _ => simp only [clone]; exact copyNew_clean h _ hv hc
+    | _ => simp only [clone]; exact copyNew_clean h _ hc
+  | _ => simp only [clone]; exact copyNew_clean h _ hc
 
 /-! ### leaf facts for the primitives -/
 
-theorem Flt.eq_iff {a b : BitVec 64} (ha : Flt.isNaN a = false ∧ Flt.isNegZero a = false)
-    (hb : Flt.isNaN b = false ∧ Flt.isNegZero b = false) : Flt.eq a b = true ↔ a = b := by
-  unfold Flt.eq
-  simp only [ha.1, hb.1, Bool.not_false, Bool.true_and, decide_eq_true_eq]
-  exact ⟨key_inj a b ha.2 hb.2, fun e => by rw [e]⟩
+theorem primEqual_iff (a b : PrimVal) : primEqual a b = true ↔ a = b := by
+  cases a <;> cases b <;>
+    simp [primEqual, Gen.uint64Equal, Gen.int64Equal, Gen.boolEqual, Gen.float64Equal, strEqual]
 
-theorem primCopy : LeafCopy PrimVal.plainFloat primOps where
-  eq_iff a b ha hb := by
-    cases a <;> cases b <;>
-      simp [primOps, primEqual, Gen.uint64Equal, Gen.int64Equal, Gen.boolEqual, Gen.float64Equal, strEqual]
-    exact Flt.eq_iff ha hb
+theorem primSame_imp (a b : PrimVal) (ha : a.notNegZero) (hb : b.notNegZero)
+    (h : primSame a b = true) : a = b := by
+  cases a <;> cases b <;> simp [primSame] at h ⊢ <;> first | exact h | exact Flt.eq_imp ha hb h
+
+/-- pkg.*Equal is exact on all primitives (Float64Equal: bit patterns) -/
+theorem primEq : LeafEq primOps := ⟨primEqual_iff⟩
+
+/-- Go's `==` is exact unless a negative zero is involved -/
+theorem primSameOk : LeafSame PrimVal.notNegZero primOps where
+  same_imp a b ha hb h := primSame_imp a b ha hb h
   zero_ok a _ := by
-    cases a <;> simp [primOps, primZero, PrimVal.plainFloat]
+    cases a <;> simp [primOps, primZero, PrimVal.notNegZero]
     decide
 
 end Stef.Cmp
